@@ -41,7 +41,9 @@ def plan(tier):
         # deterministic reproducers of the known findings listed for this property (KNOWN_FINDINGS.txt), so that the
         # KNOWN-FINDING line is printed exactly as long as the defect is present
         {"lane": "pinned", "n": 1, "timeout": 600, "optional": True},
-    ]
+    ] + ([] if q else [
+        # the repository's own simulation tests as one more workload, run with the contracts on (thorough tier only: ~90 s of C compiles)
+        {"lane": "repo-tests", "n": 1, "timeout": 1500, "optional": True}])
 
 
 def floors(tier):
@@ -71,6 +73,8 @@ def setup_shard(ctx):
 def run_case(rng, idx, tier, lane, ctx):
     if lane == "pinned":
         return S.pinned_k02(gridded=False)
+    if lane == "repo-tests":
+        return repo_tests_case()
     spec = GE.gen_events(rng, limits="default")
     grow_k = S.maybe_grown(rng, spec, 0.15)     # built for the first k states, evaluated, then extended (states via state_list, processes via add_*)
     theta = GE.param_values(rng, spec)
@@ -160,6 +164,47 @@ def run_case(rng, idx, tier, lane, ctx):
     if wit:
         res["witnesses"] = wit[:6]
     return res
+
+
+def repo_tests_case():
+    """tests/test_ode_simulate_jump.py and tests/test_model_multiple_origin.py of the working tree, run against the snapshot with the
+    SimProbe installed for the whole session (pytest plugin verifkit.mon.pytest_probe)."""
+    import json
+    import subprocess
+    import tempfile
+    repo = os.environ.get("VERIF_REPO", "/repo")
+    tests = [os.path.join(repo, "tests", f) for f in ("test_ode_simulate_jump.py", "test_model_multiple_origin.py")]
+    tests = [t for t in tests if os.path.exists(t)]
+    if not tests:
+        return {"status": "inconclusive", "reason": "repository tests not found"}
+    fd, outp = tempfile.mkstemp(prefix="pytest_probe.", suffix=".json")
+    os.close(fd)
+    env = dict(os.environ, VERIF_PYTEST_OUT=outp)
+    try:
+        p = subprocess.run([sys.executable, "-m", "pytest", "-q", "-p", "no:cacheprovider", "-p", "verifkit.mon.pytest_probe", "-x"] + tests,
+                           env=env, capture_output=True, text=True, timeout=1400, cwd=tempfile.gettempdir())
+        with open(outp) as f:
+            data = json.load(f)
+    except Exception as e:
+        return {"status": "inconclusive", "reason": "repo-tests-run-failed:" + type(e).__name__}
+    finally:
+        if os.path.exists(outp):
+            os.unlink(outp)
+    counters = {"repo_tests_" + k: v for k, v in data["counters"].items() if k in ("contract_evaluations", "checkjump_calls", "jump_runs", "accepted")}
+    counters["repo_tests_paths_checked"] = data["paths_checked"]
+    counters["repo_tests_steps_checked"] = data["steps_checked"]
+    counters["repo_tests_passed"] = data["tests_passed"]
+    wit = [dict(w, where="repository test suite under the probes") for w in data["path_violations"]]
+    for ft in data["tests_failed"]:
+        if "ContractBroken" in ft["repr"] or "MonitorViolation" in ft["repr"]:
+            wit.append({"what": "contract on _checkJump broken", "where": "repository test " + ft["test"], "detail": ft["repr"][-600:]})
+    if wit:
+        return {"status": "violated", "witnesses": wit[:5], "counters": counters, "classes": ["repo-tests"]}
+    if data["tests_failed"] or not data["counters"].get("contract_evaluations"):
+        return {"status": "inconclusive", "reason": "repository tests failed for another reason / contract never evaluated", "counters": counters,
+                "detail": data["tests_failed"][:2]}
+    return {"status": "held", "counters": counters, "classes": ["repo-tests"], "nontrivial": True,
+            "key": "repo-tests", "sample": {"tests": [os.path.basename(t) for t in tests], "observed": counters}}
 
 
 def teardown_shard(ctx):
